@@ -8,7 +8,7 @@ import z3
 import drivers
 import symex
 from core_obligations import Result, decide_claim, no_panic, witness
-from models import mk_option
+from models import mk_option, deref_all
 from symex import (Agg, ArcV, BV, Cell, DynV, EnumV, FP, IV, Inconclusive, Opaque, RefV, StateV, UnitV, VecV, zs)
 
 F64 = z3.Float64()
@@ -539,5 +539,130 @@ def ob_reducer(ctx, la, lb):
                 break
     if res.status == 'holds' and res.witnesses == 0:
         res.status, res.detail = 'inconclusive', 'vacuous'
+    res.time = time.time() - t0
+    return res
+
+
+def ob_min_variation_sample(ctx, sample, n_obj):
+    """C18 (variation criterion, sample window): `MinVariation::update_and_check` + `check_threshold` (real MIR) with the
+    coefficient of variation `get_cv(column)` as an uninterpreted number per objective: after writing the new fitness
+    into slot generation % sample, the criterion answers true exactly when the window is full (generation >= sample-1)
+    and the cv of EVERY objective over the window is not above the threshold; the columns handed to `get_cv` are
+    exactly the window's components of that objective (checked structurally)."""
+    import drivers
+    from symex import FV, VecV
+    name = f'min_variation[sample={sample},objectives={n_obj}]'
+    res = Result(name)
+    res.bounds = (f'sample window of {sample} generations, {n_obj} objectives, generation = 0..{2 * sample} (every residue and both sides of the warm-up); window contents, new '
+                  f'fitness, threshold and the cv of each column symbolic (get_cv uninterpreted; its arithmetic - mean, deviation, division - is not decided)')
+    t0 = time.time()
+    cands = [f for n, f in ctx.prog.functions.items() if n.endswith('::update_and_check') and 'min_variation' in n]
+    if len(cands) != 1:
+        raise Inconclusive(f'MinVariation::update_and_check not found ({len(cands)})')
+    fn = cands[0]
+
+    for generation in range(0, 2 * sample + 1):
+        class Env(drivers.Env):
+            def override(self, engine, st, callee, args, dest_ty):
+                if callee.endswith('HeuristicContext>::statistics'):
+                    order = self.layout.fields('HeuristicStatistics')
+                    fields = [Opaque(f) for f in order]
+                    fields[order.index('generation')] = IV(generation)
+                    return RefV(Cell(Agg('struct', fields, 'HeuristicStatistics')), 0)
+                if 'Stateful>::state_mut' in callee or callee.endswith('::state_mut'):
+                    return RefV(Cell(self.window), 0, True)
+                if callee.split('::<')[0].endswith('get_cv'):
+                    col = [x for x in deref_all(args[0]).items]
+                    j = len(self.cv_calls)
+                    self.cv_calls.append(col)
+                    return FV(False, z3.Int(f'cv_{j}'))
+                if 'collect_group_by' in callee:
+                    it = iterator_method(engine, st, 'into_iter', [args[0]], '')
+                    groups = {}
+                    for tup in it.items:
+                        k = tup.fields[0].concrete()
+                        groups.setdefault(k, []).append(tup.fields[1])
+                    return VecV([Agg('tuple', [IV(k), VecV(v)], '') for k, v in sorted(groups.items())])
+                return super().override(engine, st, callee, args, dest_ty)
+
+        from models import iterator_method
+        env = Env(ctx.prog, ctx.layout, 16)
+        env.type_subst = {}
+        eng = symex.Engine(ctx.prog, ctx.layout, env)
+        holder = {}
+
+        def body(st, env=env, eng=eng, holder=holder):
+            env.assumptions.clear()
+            env.cv_calls = []
+            window = [[env.sym_f(f'w{i}_{j}', 0, 2 ** 16) for j in range(n_obj)] for i in range(sample)]
+            env.window = VecV([VecV(list(row)) for row in window])
+            fitness = [env.sym_f(f'fit_{j}', 0, 2 ** 16) for j in range(n_obj)]
+            thr = env.sym_f('threshold', 0, 2 ** 16)
+            for j in range(n_obj):
+                env.assumptions.append(z3.And(z3.Int(f'cv_{j}') >= 0, z3.Int(f'cv_{j}') <= 2 ** 16))
+            order = ctx.layout.fields('min_variation::MinVariation')
+            fields = [UnitV() for _ in order]
+            fields[order.index('interval_type')] = EnumV('min_variation::IntervalType', 0, {0: [IV(sample)]})
+            fields[order.index('threshold')] = thr
+            fields[order.index('is_global')] = BV(True)
+            fields[order.index('key')] = Opaque('key')
+            me = Agg('struct', fields, 'min_variation::MinVariation')
+            holder.update(window=window, fitness=fitness, thr=thr)
+            try:
+                return eng.exec_fn(st, fn, [RefV(Cell(me), 0), RefV(Cell(Opaque('ctx')), 0, True), VecV(list(fitness))])
+            finally:
+                st.user_cv_calls = [list(c) for c in env.cv_calls]
+
+        def canonical_case(model, generation):
+            """A concrete window that realises the model's pattern 'cv of column j within the threshold?' with real numbers: calm columns are
+            constant, wild ones alternate 1 / 1000; the slot that the step must overwrite holds a value that flips the column if it stays."""
+            calm = [not z3.is_true(model.eval(z3.Int(f'cv_{j}') > holder['thr'].v, model_completion=True)) for j in range(n_obj)]
+            if sample == 1 and not all(calm):
+                return None          # a one-element column has no variation: the pattern cannot be realised
+            slot = generation % sample
+            post = [[10.0 if calm[j] else (1.0 if i % 2 == 0 else 1000.0) for j in range(n_obj)] for i in range(sample)]
+            pre = [list(r) for r in post]
+            pre[slot] = [77777.0 if calm[j] else post[(slot + 1) % sample][j] for j in range(n_obj)]
+            return {'kind': 'min_variation', 'sample': sample, 'generation': generation, 'window': pre, 'fitness': post[slot], 'threshold': 0.5}
+
+        paths = eng.explore(body)
+        res.paths += len(paths)
+        res.functions |= eng.functions_used
+        for st, out in paths:
+            if out is None:
+                if not no_panic(ctx, res, env, st, what=name):
+                    break
+                continue
+            window, fitness, thr = holder['window'], holder['fitness'], holder['thr']
+            slot = generation % sample
+            post = [fitness if i == slot else window[i] for i in range(sample)]
+            full = generation >= sample - 1
+            calls = st.user_cv_calls
+            if full:
+                # the columns evaluated on this path are a prefix of the objectives (the fold stops at the first cv above the threshold)
+                ok_struct = all(len(c) == sample and all(zs(c[i].v).eq(zs(post[i][j].v)) for i in range(sample)) for j, c in enumerate(calls)) and len(calls) <= n_obj
+                if not ok_struct:
+                    res.status, res.detail = 'violated', f'{name}: generation {generation}: get_cv was not called on the window columns (calls: {calls})'
+                    res.counterexample = {'what': res.detail}
+                    break
+                rule = z3.And(*[z3.Not(z3.Int(f'cv_{j}') > thr.v) for j in range(n_obj)])
+                # cv symbols of columns that were not evaluated on this path are unconstrained by the path: the claim quantifies over them
+                claim = out.t == (rule if len(calls) == n_obj else z3.BoolVal(False))
+                if len(calls) < n_obj:
+                    # stopped early: the last evaluated column is above the threshold
+                    claim = z3.And(z3.Not(out.t), z3.Int(f'cv_{len(calls) - 1}') > thr.v) if calls else z3.BoolVal(False)
+            else:
+                claim = z3.And(z3.Not(out.t), z3.BoolVal(len(calls) == 0))
+            if not decide_claim(ctx, res, env, st, claim, what=f'{name}: generation {generation}: fires <=> window full and every cv <= threshold'):
+                if res.status == 'violated' and res.model is not None:
+                    res.case = canonical_case(res.model, generation)
+                break
+            if not no_panic(ctx, res, env, st, what=name):
+                break
+            res.witnesses += int(witness(ctx, res, env, st, out.t))
+        if res.status != 'holds':
+            break
+    if res.status == 'holds' and res.witnesses == 0:
+        res.status, res.detail = 'inconclusive', 'vacuous: the criterion never fires'
     res.time = time.time() - t0
     return res
